@@ -297,7 +297,21 @@ def _mentions(name):
     return pred
 
 
-def _classify_body(world, modname, body):
+def _tx_counters(fn):
+    """Locals that count the transmissions still to be confirmed: bound to a
+    value that depends on the command's send-twice flag."""
+    out = {"outstanding_transmissions"}
+    for n in ast.walk(fn):
+        if isinstance(n, ast.Assign) and len(n.targets) == 1 and isinstance(
+                n.targets[0], ast.Name) and any(
+                    isinstance(x, ast.Attribute) and x.attr == "sendtwice"
+                    for x in ast.walk(n.value)):
+            out.add(n.targets[0].id)
+    return out
+
+
+def _classify_body(world, modname, body, counters=(
+        "outstanding_transmissions",)):
     """What a status branch makes of the report, from the calls and stores
     in it (constructors resolved through the module's imports, not by their
     spelling)."""
@@ -324,8 +338,7 @@ def _classify_body(world, modname, body):
                     n.value, ast.Constant) and n.value.value == "no":
                 kinds.add("no")
             elif isinstance(n, ast.AugAssign) and isinstance(
-                    n.op, ast.Sub) and "outstanding_transmissions" in \
-                    unparse(n.target):
+                    n.op, ast.Sub) and unparse(n.target) in counters:
                 kinds.add("echo")
             elif isinstance(n, ast.Raise):
                 kinds.add("raise")
@@ -394,7 +407,7 @@ def _check_stat(run, repo, world, folder):
         else:
             codes = r
         for c in codes:
-            table[c] = _classify_body(world, HID, body)
+            table[c] = _classify_body(world, HID, body, _tx_counters(fn))
     want = hid["tridonic"]["status"]
     run.ob("R-STAT", Q + "#table", table == want,
            "status table %s, protocol %s" % (table, want), where(mod, fn),
